@@ -35,8 +35,9 @@ TRACE_NOTE = ("Trusted: TLC, CommunityModules Json, the harness recorder/interne
 check("C01", "model_checking",
       "L0 (Ideal.tla) is model-checked exhaustively with failing draws/encoders/decoders and an attacker; every event of real "
       "encrypt/sign -> to_string -> parse -> decrypt/verify executions with the library's own randomness (all backends, both purposes, generated "
-      "and boundary keys, payload lengths incl. every block boundary, footers, assertions, thousands of randomized signatures) is validated "
-      "against L0 by TLC, all L0 invariants evaluated at every step.", TRACE_NOTE,
+      "and boundary keys, payload lengths incl. every block boundary, footers, assertions, thousands of randomized signatures; raw, Json<Value>, "
+      "RegisteredClaims and application-struct payloads with Json<Value> footers; payload types with an encoding suffix; re-sealing after a "
+      "footer change) is validated against L0 by TLC, all L0 invariants evaluated at every step; liveness of L0 in the thorough tier.", TRACE_NOTE,
       "TLA+ L0 spec (Ideal) + TLC exhaustive MC + TLC trace validation of recorded implementation executions", "§3.3, §4 C01")
 check("C02", "model_checking",
       "L0's acceptance rule (accept iff an entry with identical bytes, footer, assertion, header and key) is model-checked; every tamper class "
@@ -129,8 +130,10 @@ check("C16", "fault_enumeration",
       "TLA+ L0 spec (Ideal, Rng) + TLC MC + fault injection via custom getrandom backend + TLC trace validation", "§4 C16")
 check("C17", "exploration",
       "Shared.tla (immutable key, overlapping operations, clone/give/drop of handles) is model-checked for all interleavings of 3 threads; "
-      "TLC-generated failure/success histories are replayed on one key per backend and 8-16 real threads share one key per backend; every "
-      "result is validated by TLC against the sequential function (same call on a fresh copy) or its postcondition.",
+      "TLC-generated failure/success histories (22 operation variants incl. degenerate tokens, KDF-refused parameters, key sealing) are "
+      "replayed on one set of long-lived key objects per backend, 8-16 real threads share one key per backend, a clone storm clones and "
+      "drops handles from all threads; every result is validated by TLC against the sequential function (same call on a fresh copy) or its "
+      "postcondition; an operation that does not return within 120 s is reported as a violation by a watchdog.",
       "A data race that neither crashes nor changes a result is invisible here (no ThreadSanitizer); schedules are those the OS produced.",
       "TLA+ spec (Shared) + TLC MC of interleavings + TLC-generated histories replayed + TLC observation-set validation of real threads", "§4 C17")
 
